@@ -165,3 +165,1060 @@ Definition cost_dispatch (fn : Z) (a : tree) : tree :=
   | 429 => t_res TI (do h <- parse_header (of_TI (tnth a 0)) (of_bytes (tnth a 1)); Ok (header_size h))
   | _ => TL [TI (-2)]
   end.
+
+(* ===================================================================== *)
+(*                              PART 2 : PROOFS                          *)
+(* ===================================================================== *)
+
+(* ---- A. readers consume -------------------------------------------------- *)
+Definition consuming {A} (rd : reader A) : Prop :=
+  forall bs x r, rd bs = Ok (x, r) -> (length r < length bs)%nat.
+Definition nonincreasing {A} (rd : reader A) : Prop :=
+  forall bs x r, rd bs = Ok (x, r) -> (length r <= length bs)%nat.
+(* a reader that never gives the resource answer *)
+Definition fuel_free {A} (rd : reader A) : Prop := forall bs, rd bs <> Err EFuel.
+
+Lemma consuming_nonincreasing {A} (rd : reader A) : consuming rd -> nonincreasing rd.
+Proof. intros H bs x r E. apply H in E. lia. Qed.
+
+Lemma zlen_nonneg {A} (l : list A) : 0 <= zlen l.
+Proof. unfold zlen. lia. Qed.
+
+Lemma dropZ_length {A} (n : Z) (l : list A) : (length (dropZ n l) <= length l)%nat.
+Proof. unfold dropZ. rewrite skipn_length. lia. Qed.
+
+Lemma takeZ_dropZ_length {A} (n : Z) (l : list A) :
+  (length (takeZ n l) + length (dropZ n l) = length l)%nat.
+Proof.
+  unfold takeZ, dropZ, zlen. rewrite firstn_length, skipn_length. lia.
+Qed.
+
+Lemma rd_byte_consumes : consuming rd_byte.
+Proof. intros [|b bs] x r H; [discriminate|]. inversion H; subst. simpl. lia. Qed.
+
+Lemma rd_byte_exact bs x r : rd_byte bs = Ok (x, r) -> length bs = S (length r).
+Proof. destruct bs as [|b bs]; intros H; [discriminate|]. inversion H; subst. reflexivity. Qed.
+
+Lemma rd_pid_nonincreasing : nonincreasing rd_pid.
+Proof. intros [|b bs] x r H; inversion H; subst; simpl; lia. Qed.
+
+Lemma rd_pid_some bs p r : rd_pid bs = Ok (Some p, r) -> length bs = S (length r).
+Proof. destruct bs as [|b bs]; intros H; inversion H; subst. reflexivity. Qed.
+
+Lemma rd_fixed_exact n bs x r : rd_fixed n bs = Ok (x, r) -> (length r + n = length bs)%nat.
+Proof.
+  unfold rd_fixed. destruct (length bs <? n)%nat eqn:E; [discriminate|].
+  intros H. inversion H; subst. rewrite skipn_length. apply Nat.ltb_ge in E. lia.
+Qed.
+
+Lemma rd_fixed_consumes n : (0 < n)%nat -> consuming (rd_fixed n).
+Proof. intros Hn bs x r H. apply rd_fixed_exact in H. lia. Qed.
+
+Lemma rd_number_consumes : consuming rd_number.
+Proof.
+  intros [|b bs] x r H; [discriminate|]. simpl in H.
+  destruct (b =? 255).
+  - apply rd_fixed_exact in H. simpl. lia.
+  - inversion H; subst. rewrite skipn_length. simpl. lia.
+Qed.
+
+Lemma rd_bytes_nonincreasing n : nonincreasing (rd_bytes n).
+Proof. intros bs x r H. inversion H; subst. apply dropZ_length. Qed.
+
+Lemma rd_bytes_exact n bs x r : rd_bytes n bs = Ok (x, r) -> (length x + length r = length bs)%nat.
+Proof. intros H. inversion H; subst. apply takeZ_dropZ_length. Qed.
+
+Ltac bind_ok H :=
+  match type of H with
+  | bind ?e _ = Ok _ =>
+      let x := fresh "x" in let E := fresh "E" in
+      destruct e as [x|?] eqn:E; [cbn [bind] in H | discriminate H]
+  end.
+
+Lemma rd_bond_consumes : consuming rd_bond.
+Proof.
+  intros bs x r H. unfold rd_bond in H.
+  bind_ok H. destruct x0 as [a r1]. bind_ok H. destruct x0 as [b r2].
+  inversion H; subst. apply rd_number_consumes in E, E0. lia.
+Qed.
+
+Lemma parse_coder_consumes : consuming parse_coder.
+Proof.
+  intros bs x r H. unfold parse_coder in H.
+  bind_ok H. destruct x0 as [b r1]. apply rd_byte_consumes in E.
+  bind_ok H. destruct x0 as [m r2].
+  assert (H2 : (length r2 <= length r1)%nat).
+  { destruct (0 <? Z.land b 15).
+    - apply rd_bytes_nonincreasing in E0. exact E0.
+    - inversion E0; subst. lia. }
+  bind_ok H. destruct x0 as [[nin nout] r3].
+  assert (H3 : (length r3 <= length r2)%nat).
+  { destruct (negb (Z.land b 16 =? 0)).
+    - bind_ok E1. destruct x0 as [a r']. bind_ok E1. destruct x0 as [b' r''].
+      inversion E1; subst. apply rd_number_consumes in E2, E3. lia.
+    - inversion E1; subst. lia. }
+  bind_ok H. destruct x0 as [pr r4].
+  assert (H4 : (length r4 <= length r3)%nat).
+  { destruct (negb (Z.land b 32 =? 0)).
+    - bind_ok E2. destruct x0 as [pl r']. bind_ok E2. destruct x0 as [p r''].
+      inversion E2; subst. apply rd_number_consumes in E3. apply rd_bytes_nonincreasing in E4. lia.
+    - inversion E2; subst. lia. }
+  inversion H; subst. lia.
+Qed.
+
+(* the bytes a coder keeps (method id, properties) were read from the input *)
+Lemma parse_coder_size bs c r :
+  parse_coder bs = Ok (c, r) -> coder_size c + zlen r <= zlen bs + 1.
+Proof.
+  intros H. unfold parse_coder in H.
+  bind_ok H. destruct x as [b r1]. apply rd_byte_exact in E.
+  bind_ok H. destruct x as [m r2].
+  assert (H2 : zlen m + zlen r2 <= zlen r1 + 1).
+  { destruct (0 <? Z.land b 15).
+    - apply rd_bytes_exact in E0. unfold zlen. lia.
+    - inversion E0; subst. unfold zlen. cbn [length]. lia. }
+  bind_ok H. destruct x as [[nin nout] r3].
+  assert (H3 : (length r3 <= length r2)%nat).
+  { destruct (negb (Z.land b 16 =? 0)).
+    - bind_ok E1. destruct x as [a r']. bind_ok E1. destruct x as [b' r''].
+      inversion E1; subst. apply rd_number_consumes in E2, E3. lia.
+    - inversion E1; subst. lia. }
+  bind_ok H. destruct x as [pr r4].
+  assert (H4 : match pr with Some p => zlen p | None => 0 end + zlen r4 <= zlen r3).
+  { destruct (negb (Z.land b 32 =? 0)).
+    - bind_ok E2. destruct x as [pl r']. bind_ok E2. destruct x as [p r''].
+      inversion E2; subst. apply rd_number_consumes in E3. apply rd_bytes_exact in E4.
+      unfold zlen. lia.
+    - inversion E2; subst. lia. }
+  inversion H; subst. unfold coder_size; cbn [c_method c_props]. unfold zlen in *. lia.
+Qed.
+
+(* --- repetition: never more elements than bytes --- *)
+Lemma rd_rep_bound {A} (rd : reader A) :
+  consuming rd ->
+  forall fuel n bs l r,
+    rd_rep fuel n rd bs = Ok (l, r) ->
+    (length l + length r <= length bs)%nat /\ zlen l = Z.max n 0.
+Proof.
+  intros Hc. induction fuel as [|f IH]; intros n bs l r H; simpl in H.
+  - destruct (n <=? 0) eqn:En; [|discriminate]. inversion H; subst. unfold zlen; cbn [length]. lia.
+  - destruct (n <=? 0) eqn:En.
+    + inversion H; subst. unfold zlen; cbn [length]. lia.
+    + bind_ok H. destruct x as [a r1]. bind_ok H. destruct x as [xs r2].
+      inversion H; subst. apply Hc in E. apply IH in E0. destruct E0 as [E1 E2].
+      unfold zlen in *. cbn [length]. lia.
+Qed.
+
+Theorem rd_many_count_le {A} (rd : reader A) n bs l r :
+  consuming rd -> rd_many n rd bs = Ok (l, r) ->
+  n <= zlen bs /\ zlen l = Z.max n 0 /\ zlen l + zlen r <= zlen bs.
+Proof.
+  intros Hc H. unfold rd_many in H. apply (rd_rep_bound rd Hc) in H. destruct H as [H1 H2].
+  unfold zlen in *. lia.
+Qed.
+
+(* the statement the property needs: a declared count larger than the remaining input fails *)
+Theorem rd_many_overcount_fails {A} (rd : reader A) n bs :
+  consuming rd -> zlen bs < n -> exists e, rd_many n rd bs = Err e.
+Proof.
+  intros Hc Hn. destruct (rd_many n rd bs) as [[l r]|e] eqn:E; [|eauto].
+  apply (rd_many_count_le rd n bs l r Hc) in E. lia.
+Qed.
+
+(* the fuel of rd_rep is no restriction: any fuel above the input length gives the same answer *)
+Lemma rd_rep_fuel_irrelevant {A} (rd : reader A) :
+  consuming rd ->
+  forall f1 f2 n bs, (length bs < f1)%nat -> (length bs < f2)%nat ->
+                     rd_rep f1 n rd bs = rd_rep f2 n rd bs.
+Proof.
+  intros Hc. induction f1 as [|f1 IH]; intros f2 n bs H1 H2; [lia|].
+  destruct f2 as [|f2]; [lia|]. simpl.
+  destruct (n <=? 0); [reflexivity|].
+  destruct (rd bs) as [[x r]|e] eqn:E; [|reflexivity]. cbn [bind].
+  apply Hc in E. rewrite (IH f2 (n - 1) r) by lia. reflexivity.
+Qed.
+
+Lemma bind_fuel {A B} (e : res A) (k : A -> res B) :
+  bind e k = Err EFuel -> e = Err EFuel \/ exists x, e = Ok x /\ k x = Err EFuel.
+Proof. destruct e as [x|e']; cbn [bind]; intros H; [right; eauto | left; inversion H; reflexivity]. Qed.
+
+Lemma rd_rep_fuel_free {A} (rd : reader A) : fuel_free rd -> forall fuel n, fuel_free (rd_rep fuel n rd).
+Proof.
+  intros Hf. induction fuel as [|f IH]; intros n bs H; simpl in H.
+  - destruct (n <=? 0); discriminate.
+  - destruct (n <=? 0); [discriminate|].
+    apply bind_fuel in H. destruct H as [H|[[x r] [_ H]]]; [exact (Hf _ H)|].
+    apply bind_fuel in H. destruct H as [H|[[xs r'] [_ H]]]; [exact (IH _ _ H)|discriminate].
+Qed.
+
+Lemma rd_many_fuel_free {A} (rd : reader A) n : fuel_free rd -> fuel_free (rd_many n rd).
+Proof. intros Hf bs. apply rd_rep_fuel_free. exact Hf. Qed.
+
+Lemma rd_fixed_fuel_free n : fuel_free (rd_fixed n).
+Proof. intros bs. unfold rd_fixed. destruct (length bs <? n)%nat; discriminate. Qed.
+
+Lemma rd_number_fuel_free : fuel_free rd_number.
+Proof.
+  intros [|b bs]; simpl; [discriminate|]. destruct (b =? 255); [apply rd_fixed_fuel_free|discriminate].
+Qed.
+
+Lemma rd_byte_fuel_free : fuel_free rd_byte.
+Proof. intros [|b bs]; discriminate. Qed.
+
+Lemma rd_bytes_fuel_free n : fuel_free (rd_bytes n).
+Proof. intros bs. discriminate. Qed.
+
+Lemma rd_bond_fuel_free : fuel_free rd_bond.
+Proof.
+  intros bs H. unfold rd_bond in H.
+  apply bind_fuel in H. destruct H as [H|[[a r] [_ H]]]; [exact (rd_number_fuel_free _ H)|].
+  apply bind_fuel in H. destruct H as [H|[[b r2] [_ H]]]; [exact (rd_number_fuel_free _ H)|discriminate].
+Qed.
+
+Lemma parse_coder_fuel_free : fuel_free parse_coder.
+Proof.
+  intros bs H. unfold parse_coder in H.
+  apply bind_fuel in H. destruct H as [H|[[b r1] [_ H]]]; [exact (rd_byte_fuel_free _ H)|].
+  apply bind_fuel in H. destruct H as [H|[[m r2] [_ H]]].
+  { destruct (0 <? Z.land b 15); discriminate. }
+  apply bind_fuel in H. destruct H as [H|[[[nin nout] r3] [_ H]]].
+  { destruct (negb (Z.land b 16 =? 0)); [|discriminate].
+    apply bind_fuel in H. destruct H as [H|[[a r'] [_ H]]]; [exact (rd_number_fuel_free _ H)|].
+    apply bind_fuel in H. destruct H as [H|[[b' r''] [_ H]]]; [exact (rd_number_fuel_free _ H)|discriminate]. }
+  apply bind_fuel in H. destruct H as [H|[[pr r4] [_ H]]]; [|discriminate].
+  destruct (negb (Z.land b 32 =? 0)); [|discriminate].
+  apply bind_fuel in H. destruct H as [H|[[pl r'] [_ H]]]; [exact (rd_number_fuel_free _ H)|].
+  apply bind_fuel in H. destruct H as [H|[[p r''] [_ H]]]; discriminate.
+Qed.
+
+(* --- bit vectors --- *)
+Lemma bits_of_byte_length b k : length (bits_of_byte b k) = k.
+Proof. induction k as [|k IHk]; simpl; [reflexivity|]. rewrite app_length, IHk. simpl. lia. Qed.
+
+Lemma rd_bits_fuel_bound : forall fuel count bs l r,
+  rd_bits_fuel fuel count bs = Ok (l, r) ->
+  zlen l = Z.max count 0 /\ (length r <= length bs)%nat /\ Z.max count 0 <= 8 * (zlen bs - zlen r).
+Proof.
+  induction fuel as [|f IH]; intros count bs l r H; cbn [rd_bits_fuel] in H.
+  - destruct (count <=? 0) eqn:Ec; [|discriminate]. inversion H; subst. unfold zlen; cbn [length]. lia.
+  - destruct (count <=? 0) eqn:Ec.
+    + inversion H; subst. unfold zlen; cbn [length]. lia.
+    + destruct bs as [|b bs]; [discriminate|].
+      destruct (count <? 8) eqn:E8.
+      * injection H as <- <-. unfold zlen. rewrite bits_of_byte_length. cbn [length]. lia.
+      * bind_ok H. destruct x as [l' r']. injection H as <- <-.
+        apply IH in E. destruct E as (E1 & E2 & E3).
+        unfold zlen in *. cbn [length]. lia.
+Qed.
+
+Lemma rd_bits_bound count bs l r :
+  rd_bits count bs = Ok (l, r) ->
+  zlen l = Z.max count 0 /\ (length r <= length bs)%nat /\ count <= 8 * zlen bs.
+Proof.
+  intros H. apply rd_bits_fuel_bound in H. destruct H as (H1 & H2 & H3).
+  pose proof (zlen_nonneg r). repeat split; try assumption. lia.
+Qed.
+
+Lemma rd_bits_fuel_free count : fuel_free (rd_bits count).
+Proof.
+  intros bs. unfold rd_bits. generalize (S (length bs)) as fuel. intros fuel.
+  revert count bs. induction fuel as [|f IH]; intros count bs H; simpl in H.
+  - destruct (count <=? 0); discriminate.
+  - destruct (count <=? 0); [discriminate|]. destruct bs as [|b bs]; [discriminate|].
+    destruct (count <? 8); [discriminate|].
+    apply bind_fuel in H. destruct H as [H|[[l r] [_ H]]]; [exact (IH _ _ H)|discriminate].
+Qed.
+
+(* read_boolean: the only place where a count becomes a list without any byte being read *)
+Lemma rd_boolean_bound lim count checkall bs l r :
+  rd_boolean lim count checkall bs = Ok (l, r) ->
+  zlen l = Z.max count 0 /\ (length r <= length bs)%nat /\ (count <= lim \/ count <= 8 * zlen bs).
+Proof.
+  unfold rd_boolean. intros H. destruct checkall.
+  - destruct bs as [|b bs].
+    + destruct (lim <? count) eqn:El; [discriminate|]. inversion H; subst.
+      unfold zlen. rewrite repeat_length. cbn [length]. lia.
+    + destruct (b =? 0) eqn:Eb.
+      * apply Z.eqb_eq in Eb. subst b. apply rd_bits_bound in H. destruct H as (H1 & H2 & H3).
+        unfold zlen in *. simpl length. lia.
+      * assert (H' : (if lim <? count then Err EFuel else Ok (repeat true (Z.to_nat count), bs)) = Ok (l, r)).
+        { destruct b as [|p|p]; [discriminate Eb| exact H | exact H]. }
+        destruct (lim <? count) eqn:El; [discriminate|]. inversion H'; subst.
+        unfold zlen. rewrite repeat_length. cbn [length]. lia.
+  - apply rd_bits_bound in H. destruct H as (H1 & H2 & H3). lia.
+Qed.
+
+(* with checkall = false no resource answer is possible *)
+Lemma rd_boolean_nocheck_fuel_free lim count : fuel_free (rd_boolean lim count false).
+Proof. intros bs. unfold rd_boolean. apply rd_bits_fuel_free. Qed.
+
+(* a resource answer of read_boolean means: the count exceeds the limit *)
+Lemma rd_boolean_fuel lim count checkall bs :
+  rd_boolean lim count checkall bs = Err EFuel -> lim < count.
+Proof.
+  unfold rd_boolean. destruct checkall.
+  - destruct bs as [|b bs].
+    + destruct (lim <? count) eqn:El; [lia|discriminate].
+    + destruct (b =? 0) eqn:Eb.
+      * apply Z.eqb_eq in Eb. subst b. intros H. exfalso. exact (rd_bits_fuel_free count bs H).
+      * intros H.
+        assert (H' : (if lim <? count then Err EFuel else Ok (repeat true (Z.to_nat count), bs)) = @Err (list bool * bytes) EFuel).
+        { destruct b as [|p|p]; [discriminate Eb| exact H | exact H]. }
+        destruct (lim <? count) eqn:El; [lia|discriminate].
+  - intros H. exfalso. exact (rd_bits_fuel_free count bs H).
+Qed.
+
+(* ---- B. sections: where a declared count is backed by bytes and where it is not ---- *)
+
+(* PackInfo: the sizes are read one by one, so with a SIZE section numstreams <= input;
+   without it numstreams is free (and range(numstreams + 1) is walked at l.270) *)
+Lemma parse_packinfo_bound lim bs p r :
+  parse_packinfo lim bs = Ok (p, r) ->
+  p_numstreams p <= lim /\ (length r < length bs)%nat /\
+  (p_sizes p = [] \/ p_numstreams p <= zlen bs).
+Proof.
+  intros H. unfold parse_packinfo in H.
+  bind_ok H. destruct x as [pos r1]. apply rd_number_consumes in E.
+  bind_ok H. destruct x as [n r2]. apply rd_number_consumes in E0.
+  bind_ok H. destruct x as [pid r3]. apply rd_pid_nonincreasing in E1.
+  destruct (lim <? n) eqn:El; [discriminate|].
+  bind_ok H. destruct x as [[[[sizes defined] crcs] pid'] r4].
+  assert (Hs : (length r4 <= length r3)%nat /\ (sizes = [] \/ n <= zlen r3)).
+  { destruct pid as [pv|]; [|inversion E2; subst; split; [lia|left; reflexivity]].
+    destruct (pv =? 9) eqn:E9.
+    - apply Z.eqb_eq in E9. subst pv.
+      bind_ok E2. destruct x as [sz r5].
+      apply (rd_many_count_le rd_number n r3 sz r5 rd_number_consumes) in E3.
+      destruct E3 as (Hn & _ & Hlen).
+      bind_ok E2. destruct x as [pid2 r6]. apply rd_pid_nonincreasing in E3.
+      assert (Hr5 : (length r5 <= length r3)%nat).
+      { pose proof (zlen_nonneg sz). unfold zlen in *. lia. }
+      destruct pid2 as [pv2|]; [|inversion E2; subst; split; [lia|right; exact Hn]].
+      destruct (pv2 =? 10) eqn:E10.
+      + apply Z.eqb_eq in E10. subst pv2.
+        bind_ok E2. destruct x as [df r7]. apply rd_boolean_bound in E4. destruct E4 as (_ & Hr7 & _).
+        bind_ok E2. destruct x as [cr r8]. unfold rd_defined_crcs in E4.
+        apply (rd_many_count_le (rd_fixed 4) _ r7 cr r8 (rd_fixed_consumes 4 ltac:(lia))) in E4.
+        destruct E4 as (_ & _ & Hlen8).
+        bind_ok E2. destruct x as [pid3 r9]. apply rd_pid_nonincreasing in E4.
+        inversion E2; subst. split; [|right; exact Hn].
+        unfold zlen in *. lia.
+      + assert (E2' : Ok (sz, [], [], Some pv2, r6) = Ok (sizes, defined, crcs, pid', r4)).
+        { destruct pv2 as [|q|q]; try exact E2.
+          do 4 (destruct q as [q|q|]; try exact E2). discriminate E10. }
+        inversion E2'; subst. split; [lia|right; exact Hn].
+    - assert (E2' : Ok ([], [], [], Some pv, r3) = Ok (sizes, defined, crcs, pid', r4)).
+      { destruct pv as [|q|q]; try exact E2.
+        do 4 (destruct q as [q|q|]; try exact E2). discriminate E9. }
+      inversion E2'; subst. split; [lia|left; reflexivity]. }
+  destruct Hs as [Hr4 Hsz].
+  destruct pid' as [pv|]; [|discriminate].
+  destruct pv; try discriminate. inversion H; subst. cbn [p_numstreams p_sizes].
+  split; [lia|]. split; [lia|].
+  destruct Hsz as [Hs|Hs]; [left; exact Hs|right].
+  unfold zlen in *. lia.
+Qed.
+
+(* a resource answer of PackInfo means exactly: numstreams exceeds the limit, or it is
+   the all-defined digest vector (count = numstreams again) *)
+Lemma parse_packinfo_fuel lim bs :
+  parse_packinfo lim bs = Err EFuel ->
+  exists pos n r1 r2, rd_number bs = Ok (pos, r1) /\ rd_number r1 = Ok (n, r2) /\ lim < n.
+Proof.
+  intros H. unfold parse_packinfo in H.
+  apply bind_fuel in H. destruct H as [H|[[pos r1] [E1 H]]]; [exfalso; exact (rd_number_fuel_free _ H)|].
+  apply bind_fuel in H. destruct H as [H|[[n r2] [E2 H]]]; [exfalso; exact (rd_number_fuel_free _ H)|].
+  apply bind_fuel in H. destruct H as [H|[[pid r3] [E3 H]]].
+  { destruct r2; discriminate. }
+  exists pos, n, r1, r2. split; [exact E1|]. split; [exact E2|].
+  destruct (lim <? n) eqn:El; [lia|]. exfalso.
+  apply bind_fuel in H. destruct H as [H|[[[[[sizes defined] crcs] pid'] r4] [_ H]]].
+  2:{ destruct pid' as [pv|]; [|discriminate]. destruct pv; discriminate. }
+  destruct pid as [pv|]; [|discriminate].
+  destruct (pv =? 9) eqn:E9.
+  - apply Z.eqb_eq in E9. subst pv.
+    apply bind_fuel in H. destruct H as [H|[[sz r5] [Esz H]]].
+    { exact (rd_many_fuel_free rd_number n rd_number_fuel_free _ H). }
+    apply bind_fuel in H. destruct H as [H|[[pid2 r6] [_ H]]].
+    { destruct r5; discriminate. }
+    destruct pid2 as [pv2|]; [|discriminate].
+    destruct (pv2 =? 10) eqn:E10.
+    + apply Z.eqb_eq in E10. subst pv2.
+      apply bind_fuel in H. destruct H as [H|[[df r7] [_ H]]].
+      { apply rd_boolean_fuel in H. lia. }
+      apply bind_fuel in H. destruct H as [H|[[cr r8] [_ H]]].
+      { exact (rd_many_fuel_free (rd_fixed 4) _ (rd_fixed_fuel_free 4) _ H). }
+      apply bind_fuel in H. destruct H as [H|[[pid3 r9] [_ H]]]; [|discriminate].
+      destruct r8; discriminate.
+    + destruct pv2 as [|q|q]; try discriminate H.
+      do 4 (destruct q as [q|q|]; try discriminate H). discriminate E10.
+  - destruct pv as [|q|q]; try discriminate H.
+    do 4 (destruct q as [q|q|]; try discriminate H). discriminate E9.
+Qed.
+
+(* Folder: every count is backed by bytes; in particular totalin (the trip count of the
+   packed_indices loop) is at most the number of bonds + 1 *)
+Lemma sumZ_cons a l : sumZ (a :: l) = a + sumZ l.
+Proof.
+  unfold sumZ. cbn [fold_left]. rewrite Z.add_0_l.
+  assert (G : forall l x y, fold_left Z.add l (x + y) = x + fold_left Z.add l y).
+  { clear. induction l as [|c l IH]; intros x y; cbn [fold_left]; [reflexivity|].
+    rewrite <- Z.add_assoc. apply IH. }
+  rewrite <- (Z.add_0_r a) at 1. apply G.
+Qed.
+
+Lemma sumZ_nil : sumZ [] = 0.
+Proof. reflexivity. Qed.
+
+Lemma sumZ_app a b : sumZ (a ++ b) = sumZ a + sumZ b.
+Proof.
+  induction a as [|x a IH]; [rewrite sumZ_nil; reflexivity|].
+  cbn [app]. rewrite !sumZ_cons, IH. lia.
+Qed.
+
+Lemma parse_folder_consumes lim : consuming (parse_folder lim).
+Proof.
+  intros bs f r H. unfold parse_folder in H.
+  bind_ok H. destruct x as [nc r1]. apply rd_number_consumes in E.
+  bind_ok H. destruct x as [coders r2].
+  apply (rd_many_count_le parse_coder nc r1 coders r2 parse_coder_consumes) in E0.
+  bind_ok H. destruct x as [bonds r3].
+  apply (rd_many_count_le rd_bond _ r2 bonds r3 rd_bond_consumes) in E1.
+  assert (H13 : (length r3 <= length r1)%nat).
+  { destruct E0 as (_ & _ & A). destruct E1 as (_ & _ & B).
+    pose proof (zlen_nonneg coders). pose proof (zlen_nonneg bonds). unfold zlen in *. lia. }
+  destruct (_ - _ =? 1).
+  - destruct (lim <? _); [discriminate|]. inversion H; subst. lia.
+  - bind_ok H. destruct x as [packed r4].
+    apply (rd_many_count_le rd_number _ r3 packed r4 rd_number_consumes) in E2.
+    destruct E2 as (_ & _ & C). inversion H; subst.
+    pose proof (zlen_nonneg packed). unfold zlen in *. lia.
+Qed.
+
+(* the only resource answer of a folder needs totalin > lim, and totalin <= |input| + 1 *)
+Lemma parse_folder_fuel lim bs : parse_folder lim bs = Err EFuel -> lim <= zlen bs.
+Proof.
+  intros H. unfold parse_folder in H.
+  apply bind_fuel in H. destruct H as [H|[[nc r1] [E1 H]]]; [exfalso; exact (rd_number_fuel_free _ H)|].
+  apply rd_number_consumes in E1.
+  apply bind_fuel in H. destruct H as [H|[[coders r2] [E2 H]]].
+  { exfalso. exact (rd_many_fuel_free parse_coder nc parse_coder_fuel_free _ H). }
+  apply (rd_many_count_le parse_coder nc r1 coders r2 parse_coder_consumes) in E2.
+  apply bind_fuel in H. destruct H as [H|[[bonds r3] [E3 H]]].
+  { exfalso. exact (rd_many_fuel_free rd_bond _ rd_bond_fuel_free _ H). }
+  apply (rd_many_count_le rd_bond _ r2 bonds r3 rd_bond_consumes) in E3.
+  set (totalin := sumZ (map c_nin coders)) in *.
+  set (nbonds := sumZ (map c_nout coders) - 1) in *.
+  destruct (totalin - nbonds =? 1) eqn:Enp.
+  - destruct (lim <? totalin) eqn:El; [|discriminate].
+    destruct E2 as (_ & _ & A). destruct E3 as (B1 & _ & B).
+    pose proof (zlen_nonneg coders). pose proof (zlen_nonneg bonds).
+    pose proof (zlen_nonneg r2). pose proof (zlen_nonneg r3).
+    unfold zlen in *. lia.
+  - exfalso. apply bind_fuel in H. destruct H as [H|[[packed r4] [_ H]]]; [|discriminate].
+    exact (rd_many_fuel_free rd_number _ rd_number_fuel_free _ H).
+Qed.
+
+Corollary parse_folder_immune lim bs : zlen bs < lim -> parse_folder lim bs <> Err EFuel.
+Proof. intros Hl H. apply parse_folder_fuel in H. lia. Qed.
+
+(* ---- the resource answers that a few bytes reach: refutations of the memory clause ---- *)
+
+(* FilesInfo._read: numfiles dicts are allocated before another byte is read *)
+Lemma parse_files_fuel lim bs n r :
+  rd_number bs = Ok (n, r) -> lim < n -> parse_files lim bs = Err EFuel.
+Proof.
+  intros Hn Hl. unfold parse_files. rewrite Hn. cbn [bind].
+  destruct (lim <? n) eqn:E; [reflexivity|lia].
+Qed.
+
+(* 2^63 as a NUMBER *)
+Definition N63 : bytes := [255; 0; 0; 0; 0; 0; 0; 0; 128].
+Lemma rd_number_N63 r : rd_number (N63 ++ r) = Ok (2 ^ 63, r).
+Proof. reflexivity. Qed.
+
+(* HEADER, FILES_INFO, numfiles = 2^63 *)
+Definition witness_numfiles : bytes := [1; 5] ++ N63.
+Theorem numfiles_alloc_witness :
+  length witness_numfiles = 11%nat /\
+  forall lim, lim < 2 ^ 63 -> parse_header lim witness_numfiles = Err EFuel.
+Proof.
+  split; [reflexivity|]. intros lim Hl.
+  unfold witness_numfiles, parse_header. cbn [app]. unfold parse_header_body.
+  cbn [rd_pid bind].
+  rewrite (parse_files_fuel lim N63 (2 ^ 63) [] (rd_number_N63 []) Hl). reflexivity.
+Qed.
+
+(* PackInfo._read without a SIZE section: range(numstreams + 1) is walked with no byte behind it *)
+Lemma parse_packinfo_fuel_intro lim bs pos n r1 r2 :
+  rd_number bs = Ok (pos, r1) -> rd_number r1 = Ok (n, r2) -> lim < n ->
+  parse_packinfo lim bs = Err EFuel.
+Proof.
+  intros H1 H2 Hl. unfold parse_packinfo. rewrite H1. cbn [bind]. rewrite H2. cbn [bind].
+  destruct r2 as [|b r2]; cbn [rd_pid bind]; (destruct (lim <? n) eqn:E; [reflexivity|lia]).
+Qed.
+
+(* HEADER, MAIN_STREAMS_INFO, PACK_INFO, packpos = 0, numstreams = 2^63 *)
+Definition witness_numstreams : bytes := [1; 4; 6; 0] ++ N63.
+Theorem numstreams_alloc_witness :
+  length witness_numstreams = 13%nat /\
+  forall lim, lim < 2 ^ 63 -> parse_header lim witness_numstreams = Err EFuel.
+Proof.
+  split; [reflexivity|]. intros lim Hl.
+  unfold witness_numstreams, parse_header. cbn [app]. unfold parse_header_body.
+  cbn [rd_pid bind]. unfold parse_streams. cbn [rd_pid bind].
+  rewrite (parse_packinfo_fuel_intro lim (0 :: N63) 0 (2 ^ 63) N63 [] eq_refl (rd_number_N63 []) Hl).
+  reflexivity.
+Qed.
+
+(* SubstreamsInfo._read: one folder (Copy coder, unpack size 0) declared to hold 2^63 sub-streams:
+   [False] * total, [0] * total (or [True] * num_digests) with no byte behind them *)
+Definition witness_substreams : bytes :=
+  [1; 4; 7; 11; 1; 0; 1; 1; 0; 12; 0; 0; 8; 13] ++ N63.
+Theorem substreams_alloc_witness :
+  length witness_substreams = 23%nat /\
+  parse_header (2 ^ 62) witness_substreams = Err EFuel /\
+  parse_header (2 ^ 20 * zlen witness_substreams) witness_substreams = Err EFuel.
+Proof. split; [reflexivity|]. split; vm_compute; reflexivity. Qed.
+
+(* the three witnesses together: a header of at most 23 bytes on which the work of the
+   parser exceeds every bound that is linear in the input with coefficients below 2^57 *)
+Theorem alloc_by_declared_count_refuted :
+  exists bs, (length bs <= 40)%nat /\
+    forall a b, 0 <= a < 2 ^ 57 -> 0 <= b < 2 ^ 62 -> parse_header (a * zlen bs + b) bs = Err EFuel.
+Proof.
+  exists witness_numfiles. split; [cbn; lia|].
+  intros a b Ha Hb. apply (proj2 numfiles_alloc_witness).
+  change (zlen witness_numfiles) with 11. lia.
+Qed.
+
+(* ---- C1. loops whose trip count is a declared number ----------------------- *)
+
+Lemma tri_steps_closed k m :
+  0 <= m -> Z.of_nat k <= m + 1 -> 2 * tri_steps k m = Z.of_nat k * (Z.of_nat k + 1).
+Proof.
+  intros Hm. induction k as [|k IH]; intros Hk; [reflexivity|].
+  cbn [tri_steps]. rewrite Nat2Z.inj_succ in *.
+  rewrite Z.max_l by lia. rewrite Z.min_l by lia.
+  specialize (IH ltac:(lia)). lia.
+Qed.
+
+(* PackInfo with n sizes: (n+1)(n+2)/2 list cells are walked to build n+1 positions *)
+Theorem packpositions_steps_quadratic n :
+  0 <= n -> 2 * packpositions_steps n n = (n + 1) * (n + 2).
+Proof.
+  intros Hn. unfold packpositions_steps. rewrite tri_steps_closed by lia.
+  rewrite Z2Nat.id by lia. lia.
+Qed.
+
+Theorem packpositions_superlinear a b :
+  0 <= a -> 0 <= b -> exists n, 0 <= n /\ a * n + b < packpositions_steps n n.
+Proof.
+  intros Ha Hb. exists (2 * a + 2 * b + 1). split; [lia|].
+  pose proof (packpositions_steps_quadratic (2 * a + 2 * b + 1) ltac:(lia)) as H. nia.
+Qed.
+
+Lemma packpositions_length sizes n : -1 <= n -> zlen (packpositions sizes n) = n + 1.
+Proof.
+  intros Hn. unfold packpositions, zlen, py_range. rewrite map_length, range_from_length. lia.
+Qed.
+
+(* without a SIZE section the sums are over the empty list: n + 1 steps for a declared n *)
+Lemma tri_steps_nosizes k : tri_steps k 0 = Z.of_nat k.
+Proof.
+  induction k as [|k IH]; [reflexivity|]. cbn [tri_steps]. rewrite IH, Nat2Z.inj_succ.
+  rewrite Z.max_r by lia. rewrite Z.min_r by lia. lia.
+Qed.
+Theorem packpositions_steps_nosizes n : 0 <= n -> packpositions_steps 0 n = n + 1.
+Proof. intros Hn. unfold packpositions_steps. rewrite tri_steps_nosizes. lia. Qed.
+
+(* read_utf16 at end of input: 65536 iterations for every declared file *)
+Theorem names_steps_eof n : names_steps n [] = 65536 * Z.of_nat n.
+Proof.
+  induction n as [|n IH]; [reflexivity|].
+  change (names_steps (S n) []) with (65536 + names_steps n []). rewrite IH. lia.
+Qed.
+
+(* Folder._read: with no bond naming an input stream below totalin, every one of the totalin
+   searches walks the whole bond list *)
+Lemma find_in_steps_nomatch bonds i :
+  (forall b, In b bonds -> fst b <> i) -> find_in_steps bonds i = zlen bonds.
+Proof.
+  induction bonds as [|b bonds IH]; intros H; [reflexivity|].
+  cbn [find_in_steps]. destruct (fst b =? i) eqn:E.
+  - exfalso. apply (H b (or_introl eq_refl)). lia.
+  - rewrite IH by (intros b' Hb'; apply H; right; exact Hb').
+    unfold zlen. cbn [length]. lia.
+Qed.
+
+Lemma sumZ_map_const {A} (f : A -> Z) (c : Z) (l : list A) :
+  (forall x, In x l -> f x = c) -> sumZ (map f l) = c * zlen l.
+Proof.
+  induction l as [|x l IH]; intros H; [cbn [map]; rewrite sumZ_nil; unfold zlen; cbn [length]; lia|].
+  cbn [map]. rewrite sumZ_cons, IH by (intros y Hy; apply H; right; exact Hy).
+  rewrite (H x (or_introl eq_refl)). unfold zlen. cbn [length]. lia.
+Qed.
+
+Lemma range_from_In a n x : In x (range_from a n) -> a <= x < a + Z.of_nat n.
+Proof.
+  revert a. induction n as [|n IH]; intros a H; [destruct H|].
+  cbn [range_from] in H. destruct H as [H|H]; [lia|]. apply IH in H. lia.
+Qed.
+
+Theorem packed_indices_steps_worst bonds totalin :
+  0 <= totalin ->
+  (forall b, In b bonds -> fst b < 0 \/ totalin <= fst b) ->
+  packed_indices_steps bonds totalin = zlen bonds * totalin.
+Proof.
+  intros Ht H. unfold packed_indices_steps.
+  rewrite (sumZ_map_const _ (zlen bonds)).
+  - f_equal. unfold zlen, py_range. rewrite range_from_length. lia.
+  - intros i Hi. apply range_from_In in Hi. apply find_in_steps_nomatch.
+    intros b Hb. specialize (H b Hb). lia.
+Qed.
+
+(* _read_digest: the trip count is the declared pack size over the block size *)
+Theorem read_digest_iters_bound size bsz :
+  0 < size -> 0 < bsz -> size <= read_digest_iters size bsz * bsz.
+Proof.
+  intros Hs Hb. unfold read_digest_iters.
+  destruct (size <=? 0) eqn:E1; [lia|]. destruct (bsz <=? 0) eqn:E2; [lia|].
+  pose proof (Z.div_mod (size + bsz - 1) bsz ltac:(lia)).
+  pose proof (Z.mod_pos_bound (size + bsz - 1) bsz ltac:(lia)). nia.
+Qed.
+
+(* ---- C2. the decompress loops ---------------------------------------------- *)
+Section Loops.
+  Variable stage_st : Type.
+  Variable dstep : stage_st -> bytes -> Z -> stage_st * bytes.
+  Local Notation dst := (Decomp.dstate stage_st).
+  Local Notation dzlen := Decomp.zlen.
+
+  (* the model's own errors are never the resource answer *)
+  Lemma chain_run_not_fuel (ss : list stage_st) :
+    forall up us data ml, Decomp.chain_run dstep ss up us data ml <> Err EFuel.
+  Proof.
+    induction ss as [|s ss IH]; intros up us data ml H; cbn [Decomp.chain_run] in H; [discriminate|].
+    destruct up as [|u up]; [discriminate|]. destruct us as [|z us]; [discriminate|].
+    destruct (u <? z).
+    - destruct (dstep s data ml) as [s' out].
+      apply bind_fuel in H. destruct H as [H|[[[ss'' up''] d] [_ H]]]; [exact (IH _ _ _ _ H)|discriminate].
+    - destruct (dzlen data =? 0); [|discriminate].
+      apply bind_fuel in H. destruct H as [H|[[[ss'' up''] d] [_ H]]]; [exact (IH _ _ _ _ H)|discriminate].
+  Qed.
+
+  Lemma run_chain_not_fuel (st : dst) data ml : Decomp.run_chain dstep st data ml <> Err EFuel.
+  Proof.
+    unfold Decomp.run_chain. intros H.
+    apply bind_fuel in H. destruct H as [H|[[[ss up] out] [_ H]]]; [exact (chain_run_not_fuel _ _ _ _ _ H)|discriminate].
+  Qed.
+
+  Lemma decompress_not_fuel (st : dst) ml rd : Decomp.decompress dstep st ml rd <> Err EFuel.
+  Proof.
+    unfold Decomp.decompress. intros H.
+    destruct (ml <? 0).
+    - destruct (Decomp.read_data st rd) as [st1 data].
+      apply bind_fuel in H. destruct H as [H|[[st2 out] [_ H]]]; [exact (run_chain_not_fuel _ _ _ H)|discriminate].
+    - destruct (_ >=? ml); [discriminate|].
+      destruct (Decomp.read_data st rd) as [st1 data].
+      apply bind_fuel in H. destruct H as [H|[[st2 tmp] [_ H]]].
+      + destruct (dzlen (Decomp.unused st1) >? 0); [|exact (run_chain_not_fuel _ _ _ H)].
+        apply bind_fuel in H. destruct H as [H|[[st2 tmp] [_ H]]]; [exact (run_chain_not_fuel _ _ _ H)|discriminate].
+      + destruct (_ <=? ml); discriminate.
+  Qed.
+
+  (* a read that is not an end-of-file indication on a non-empty file *)
+  Definition okrd (st : dst) (rd : nat) : Prop := (0 < rd)%nat \/ Decomp.fp_rest st = [].
+
+  Lemma sched_hd_okrd (st : dst) (sched : list nat) :
+    Forall (fun k => (0 < k)%nat) sched -> okrd st (Decomp.sched_hd st sched).
+  Proof.
+    intros Hs. unfold okrd, Decomp.sched_hd. destruct sched as [|k sched].
+    - destruct (Decomp.fp_rest st) as [|b r]; [right; reflexivity|left; cbn; lia].
+    - left. inversion Hs; assumption.
+  Qed.
+
+  (* ---- termination under a progress contract ------------------------------
+     I       : invariant relating the decompressor state to the bytes still wanted
+     lat, k  : a call may return nothing without having read input at most k times in a row
+               (lat decreases on each such call)
+     This is what a guard "raise when the decoder yields nothing and the input is exhausted"
+     establishes with k = 0. *)
+  Section Progress.
+    Variable I : dst -> Z -> Prop.
+    Variable lat : dst -> nat.
+    Variable k : nat.
+    Variable mb : Z.
+    Variable L0 : Z.
+    Hypothesis mb_pos : 0 < mb.
+    Hypothesis I_book : forall st size, I st size -> Decomp.book_inv L0 st.
+    Hypothesis I_step : forall st size rd st' out,
+        I st size -> 0 < size -> okrd st rd ->
+        Decomp.decompress dstep st (Z.min size mb) rd = Ok (st', out) ->
+        0 < size - dzlen out -> I st' (size - dzlen out).
+    Hypothesis lat_le : forall st, (lat st <= k)%nat.
+    Hypothesis progress : forall st size rd st',
+        I st size -> 0 < size -> okrd st rd ->
+        Decomp.decompress dstep st (Z.min size mb) rd = Ok (st', []) ->
+        Decomp.consumed st' = Decomp.consumed st -> (lat st' < lat st)%nat.
+
+    Definition loop_measure (st : dst) (size : Z) : Z :=
+      (Z.max size 0 + dzlen (Decomp.fp_rest st)) * (Z.of_nat k + 1) + Z.of_nat (lat st).
+
+    Lemma loop_measure_nonneg st size : 0 <= loop_measure st size.
+    Proof. unfold loop_measure. pose proof (Decomp.zlen_nonneg (Decomp.fp_rest st)). nia. Qed.
+
+    Lemma worker_terminates_measure :
+      forall fuel st size sched,
+        I st size -> Forall (fun k => (0 < k)%nat) sched ->
+        loop_measure st size < Z.of_nat fuel ->
+        Decomp.worker_decompress dstep fuel st size mb sched <> Err EFuel.
+    Proof.
+      induction fuel as [|fuel IH]; intros st size sched HI Hs Hm.
+      - pose proof (loop_measure_nonneg st size). lia.
+      - rewrite Decomp.worker_unfold.
+        destruct (size >? 0) eqn:Esz; [|discriminate].
+        assert (Hsz : 0 < size) by lia.
+        pose proof (sched_hd_okrd st sched Hs) as Hrd.
+        destruct (Decomp.decompress dstep st (Z.min size mb) (Decomp.sched_hd st sched))
+          as [[st' tmp]|e] eqn:Hd; cbn [bind].
+        2:{ intros H. inversion H; subst. exact (decompress_not_fuel _ _ _ Hd). }
+        assert (Hrem : (if dzlen tmp >? 0 then size - dzlen tmp else size) = size - dzlen tmp).
+        { pose proof (Decomp.zlen_nonneg tmp). destruct (dzlen tmp >? 0) eqn:Et; lia. }
+        rewrite Hrem.
+        destruct (size - dzlen tmp <=? 0) eqn:Er; [discriminate|].
+        assert (Hpos : 0 < size - dzlen tmp) by lia.
+        pose proof (I_step _ _ _ _ _ HI Hsz Hrd Hd Hpos) as HI'.
+        assert (Hm' : loop_measure st' (size - dzlen tmp) < Z.of_nat fuel).
+        { pose proof (I_book _ _ HI) as Hb.
+          destruct (Decomp.decompress_book_inv _ dstep L0 st st' _ _ tmp Hb Hd) as (Hb' & Hc & _).
+          destruct Hb as (_ & _ & Hl). destruct Hb' as (_ & _ & Hl').
+          pose proof (lat_le st'). pose proof (Decomp.zlen_nonneg tmp).
+          unfold loop_measure in *.
+          destruct (Z.eq_dec (dzlen tmp) 0) as [Ht|Ht].
+          - assert (tmp = []) by (apply Decomp.zlen_le0_nil; lia). subst tmp.
+            destruct (Z.eq_dec (Decomp.consumed st') (Decomp.consumed st)) as [Hce|Hce].
+            + pose proof (progress _ _ _ _ HI Hsz Hrd Hd Hce).
+              replace (dzlen (Decomp.fp_rest st')) with (dzlen (Decomp.fp_rest st)) by lia. nia.
+            + nia.
+          - nia. }
+        destruct (Decomp.worker_decompress dstep fuel st' (size - dzlen tmp) mb (tl sched))
+          as [[st'' out]|e] eqn:Hw; cbn [bind]; [discriminate|].
+        intros H. inversion H; subst.
+        apply (IH st' (size - dzlen tmp) (tl sched) HI'); [|exact Hm'|exact Hw].
+        destruct sched as [|x sched]; [constructor|]. inversion Hs; assumption.
+    Qed.
+
+    (* the bound: (declared output + file content still unread + 1) times the latency *)
+    Theorem worker_terminates (st : dst) (size : Z) (sched : list nat) (fuel : nat) :
+      I st size -> Forall (fun k => (0 < k)%nat) sched ->
+      (Z.max size 0 + dzlen (Decomp.fp_rest st) + 1) * (Z.of_nat k + 1) <= Z.of_nat fuel ->
+      Decomp.worker_decompress dstep fuel st size mb sched <> Err EFuel.
+    Proof.
+      intros HI Hs Hf. apply worker_terminates_measure; [exact HI|exact Hs|].
+      pose proof (lat_le st). pose proof (Decomp.zlen_nonneg (Decomp.fp_rest st)).
+      unfold loop_measure. nia.
+    Qed.
+  End Progress.
+End Loops.
+
+(* ---- C3. the encoded-header loop is the worker loop with max_block_size = remaining ---- *)
+Section HeaderLoopProofs.
+  Variable stage_st : Type.
+  Variable dstep : stage_st -> bytes -> Z -> stage_st * bytes.
+  Local Notation dst := (Decomp.dstate stage_st).
+  Local Notation dzlen := Decomp.zlen.
+
+  Lemma header_loop_unfold (fuel : nat) (st : dst) (usize : Z) (acc : bytes) (sched : list nat) :
+    header_loop dstep fuel st usize acc sched =
+    if usize - dzlen acc >? 0 then
+      match fuel with
+      | O => Err EFuel
+      | S fuel' =>
+          do r <- Decomp.decompress dstep st (usize - dzlen acc) (Decomp.sched_hd st sched);
+          let '(st', tmp) := r in
+          header_loop dstep fuel' st' usize (acc ++ tmp) (tl sched)
+      end
+    else Ok (st, acc).
+  Proof. destruct fuel; reflexivity. Qed.
+
+  Definition with_acc (acc : bytes) (r : res (dst * bytes)) : res (dst * bytes) :=
+    match r with Ok (st', out) => Ok (st', acc ++ out) | Err e => Err e end.
+
+  Theorem header_loop_is_worker :
+    forall fuel st usize acc sched mb,
+      usize - dzlen acc <= mb ->
+      header_loop dstep fuel st usize acc sched =
+      with_acc acc (Decomp.worker_decompress dstep fuel st (usize - dzlen acc) mb sched).
+  Proof.
+    induction fuel as [|fuel IH]; intros st usize acc sched mb Hmb;
+      rewrite header_loop_unfold, Decomp.worker_unfold;
+      (destruct (usize - dzlen acc >? 0) eqn:Esz;
+       [|cbn [with_acc]; rewrite app_nil_r; reflexivity]).
+    - reflexivity.
+    - rewrite Z.min_l by lia.
+      destruct (Decomp.decompress dstep st (usize - dzlen acc) (Decomp.sched_hd st sched))
+        as [[st' tmp]|e] eqn:Hd; cbn [bind with_acc]; [|reflexivity].
+      assert (Hrem : (if dzlen tmp >? 0 then usize - dzlen acc - dzlen tmp else usize - dzlen acc)
+                     = usize - dzlen (acc ++ tmp)).
+      { rewrite Decomp.zlen_app. pose proof (Decomp.zlen_nonneg tmp).
+        destruct (dzlen tmp >? 0) eqn:Et; lia. }
+      rewrite Hrem.
+      destruct (usize - dzlen (acc ++ tmp) <=? 0) eqn:Er.
+      + rewrite header_loop_unfold.
+        destruct (usize - dzlen (acc ++ tmp) >? 0) eqn:Er2; [lia|]. reflexivity.
+      + pose proof (Decomp.zlen_nonneg tmp). rewrite Decomp.zlen_app in *.
+        rewrite (IH st' usize (acc ++ tmp) (tl sched) mb) by (rewrite Decomp.zlen_app; lia).
+        rewrite Decomp.zlen_app.
+        destruct (Decomp.worker_decompress dstep fuel st' (usize - (dzlen acc + dzlen tmp)) mb (tl sched))
+          as [[st'' out]|e]; cbn [bind with_acc]; [rewrite app_assoc; reflexivity|reflexivity].
+  Qed.
+
+  (* non-termination: a quiet, exhausted decompressor and a declared size not yet reached *)
+  Theorem header_loop_spins (quiet : stage_st -> Prop) :
+    (forall s ml, quiet s -> snd (dstep s [] ml) = [] /\ quiet (fst (dstep s [] ml))) ->
+    forall fuel st usize acc sched,
+      Decomp.stuck quiet st -> dzlen acc < usize ->
+      header_loop dstep fuel st usize acc sched = Err EFuel.
+  Proof.
+    intros Hq fuel st usize acc sched Hst Hsz.
+    rewrite (header_loop_is_worker fuel st usize acc sched (usize - dzlen acc)) by lia.
+    rewrite (Decomp.worker_spins stage_st dstep quiet Hq fuel st _ _ sched Hst) by lia.
+    reflexivity.
+  Qed.
+
+  (* termination under the same progress contract as the worker loop *)
+  Theorem header_loop_terminates
+          (I : dst -> Z -> Prop) (lat : dst -> nat) (k : nat) (L0 : Z)
+          (st : dst) (usize : Z) (acc : bytes) (sched : list nat) (fuel : nat) :
+    let mb := usize - dzlen acc in
+    0 < mb ->
+    (forall st size, I st size -> Decomp.book_inv L0 st) ->
+    (forall st size rd st' out,
+        I st size -> 0 < size -> okrd stage_st st rd ->
+        Decomp.decompress dstep st (Z.min size mb) rd = Ok (st', out) ->
+        0 < size - dzlen out -> I st' (size - dzlen out)) ->
+    (forall st, (lat st <= k)%nat) ->
+    (forall st size rd st',
+        I st size -> 0 < size -> okrd stage_st st rd ->
+        Decomp.decompress dstep st (Z.min size mb) rd = Ok (st', []) ->
+        Decomp.consumed st' = Decomp.consumed st -> (lat st' < lat st)%nat) ->
+    I st mb -> Forall (fun k => (0 < k)%nat) sched ->
+    (mb + dzlen (Decomp.fp_rest st) + 1) * (Z.of_nat k + 1) <= Z.of_nat fuel ->
+    header_loop dstep fuel st usize acc sched <> Err EFuel.
+  Proof.
+    intros mb Hmb Hbook Hstep Hlat Hprog HI Hs Hf.
+    rewrite (header_loop_is_worker fuel st usize acc sched mb) by (subst mb; lia).
+    fold mb.
+    pose proof (worker_terminates stage_st dstep I lat k mb L0 Hmb Hbook Hstep Hlat Hprog
+                                  st mb sched fuel HI Hs) as Hw.
+    rewrite Z.max_l in Hw by lia. specialize (Hw Hf).
+    destruct (Decomp.worker_decompress dstep fuel st mb mb sched) as [[st' out]|e];
+      cbn [with_acc]; [discriminate|].
+    intros H. apply Hw. inversion H; reflexivity.
+  Qed.
+End HeaderLoopProofs.
+
+(* the witness of Decomp.toy_worker_spins for the encoded-header loop: a Copy-coded header
+   declared to be 10 bytes whose packed stream holds 3 *)
+Theorem toy_header_loop_spins (fuel : nat) :
+  toy_header_loop fuel [Decomp.toy_st 0 0 []] [10] 3 100 [1; 2; 3] 10 [] = Err EFuel.
+Proof.
+  unfold toy_header_loop, Decomp.toy_init.
+  destruct fuel as [|fuel]; [reflexivity|].
+  rewrite header_loop_unfold.
+  change (10 - Decomp.zlen [] >? 0) with true. cbv iota.
+  set (st0 := Decomp.init_state [Decomp.toy_st 0 0 []] [10] 3 100 [1; 2; 3]).
+  set (st1 := Decomp.mkD [Decomp.toy_st 0 0 []] [3] [10] 3 3 100 [] [] 0 []).
+  assert (Hd : Decomp.decompress Decomp.toy_dstep st0 (10 - Decomp.zlen []) (Decomp.sched_hd st0 [])
+               = Ok (st1, [1; 2; 3])) by (vm_compute; reflexivity).
+  rewrite Hd. cbn [bind]. cbv iota beta.
+  rewrite (header_loop_spins Decomp.toy_state Decomp.toy_dstep (fun s => fst (fst s) = 0)).
+  - reflexivity.
+  - intros [[t k] p] ml Ht. simpl in Ht. subst t. simpl. split; reflexivity.
+  - unfold Decomp.stuck, st1; simpl. repeat split; auto.
+  - vm_compute. reflexivity.
+Qed.
+
+(* ---- C4. the progress contract is satisfiable: the Copy stage on a stream that really
+        holds the declared number of bytes ---------------------------------------- *)
+Section EmptyResult.
+  Variable stage_st : Type.
+  Variable dstep : stage_st -> bytes -> Z -> stage_st * bytes.
+  Local Notation dst := (Decomp.dstate stage_st).
+  Local Notation dzlen := Decomp.zlen.
+
+  (* when decompress returns nothing for a positive max_length, the carry-over buffer was
+     empty and the chain produced nothing from what was read *)
+  Lemma decompress_empty (st st' : dst) (ml : Z) (rd : nat) :
+    0 <= Decomp.pos st <= dzlen (Decomp.buf st) -> Decomp.unused st = [] -> 0 < ml ->
+    Decomp.decompress dstep st ml rd = Ok (st', []) ->
+    Decomp.pos st = dzlen (Decomp.buf st) /\
+    exists st1 data st2,
+      Decomp.read_data st rd = (st1, data) /\ Decomp.run_chain dstep st1 data ml = Ok (st2, []).
+  Proof.
+    intros Hpos Hun Hml H. unfold Decomp.decompress in H.
+    destruct (ml <? 0) eqn:E1; [lia|].
+    destruct (dzlen (Decomp.buf st) - Decomp.pos st >=? ml) eqn:E2.
+    - exfalso. injection H as _ Hout.
+      assert (Hl : dzlen (Decomp.py_slice (Decomp.buf st) (Decomp.pos st) (Decomp.pos st + ml)) = ml).
+      { rewrite Decomp.zlen_py_slice by lia. lia. }
+      rewrite Hout in Hl. cbn in Hl. lia.
+    - destruct (Decomp.read_data st rd) as [st1 data] eqn:Hrd.
+      pose proof (Decomp.read_data_spec _ st st1 rd data Hrd)
+        as (R1 & R2 & R3 & R4 & R5 & R6 & R7 & R8 & _).
+      rewrite R6, Hun in H. change (dzlen [] >? 0) with false in H. cbv iota in H.
+      destruct (Decomp.run_chain dstep st1 data ml) as [[st2 tmp]|e] eqn:Hrc; cbn [bind] in H; [|discriminate].
+      pose proof (Decomp.run_chain_spec _ dstep st1 st2 data tmp ml Hrc)
+        as (_ & _ & _ & _ & _ & _ & C7 & C8 & _).
+      assert (Hpf : dzlen (Decomp.py_from (Decomp.buf st2) (Decomp.pos st2))
+                    = dzlen (Decomp.buf st) - Decomp.pos st).
+      { rewrite C7, C8, R7, R8. apply Decomp.zlen_py_from. lia. }
+      pose proof (Decomp.zlen_nonneg tmp) as Htn.
+      destruct (dzlen (Decomp.buf st) - Decomp.pos st + dzlen tmp <=? ml) eqn:E3.
+      + injection H as _ Hout.
+        assert (Hl : dzlen (Decomp.py_from (Decomp.buf st2) (Decomp.pos st2) ++ tmp) = 0)
+          by (rewrite Hout; reflexivity).
+        rewrite Decomp.zlen_app, Hpf in Hl.
+        assert (tmp = []) by (apply Decomp.zlen_le0_nil; lia). subst tmp.
+        split; [lia|]. exists st1, data, st2. split; [reflexivity|exact Hrc].
+      + exfalso. injection H as _ Hout.
+        assert (Hl : dzlen (Decomp.py_from (Decomp.buf st2) (Decomp.pos st2)
+                            ++ Decomp.py_to tmp (ml - (dzlen (Decomp.buf st) - Decomp.pos st))) = 0)
+          by (rewrite Hout; reflexivity).
+        rewrite Decomp.zlen_app, Hpf, Decomp.zlen_py_to in Hl by lia. lia.
+  Qed.
+End EmptyResult.
+
+Definition copy_st : Decomp.toy_state := Decomp.toy_st 0 0 [].
+
+(* bytes of the packed stream still to be read *)
+Definition avail (st : Decomp.dstate Decomp.toy_state) : Z :=
+  Z.max 0 (Z.min (Decomp.zlen (Decomp.fp_rest st)) (Decomp.input_size st - Decomp.consumed st)).
+
+(* "the stream holds what is declared": the bytes wanted are in the carry-over buffer or
+   still in the packed stream, and the Copy stage's declared size covers them *)
+Definition copy_inv (L0 : Z) (st : Decomp.dstate Decomp.toy_state) (size : Z) : Prop :=
+  Decomp.book_inv L0 st /\ Decomp.stages st = [copy_st] /\
+  (exists u n, Decomp.unpacked st = [u] /\ Decomp.unpacksizes st = [n] /\ u + avail st <= n) /\
+  0 < Decomp.block_size st /\
+  size <= (Decomp.zlen (Decomp.buf st) - Decomp.pos st) + avail st.
+
+Lemma copy_chain_run u n data ml ss up out :
+  Decomp.chain_run Decomp.toy_dstep [copy_st] [u] [n] data ml = Ok (ss, up, out) ->
+  ss = [copy_st] /\ up = [u + Decomp.zlen data] /\ out = data.
+Proof.
+  cbn [Decomp.chain_run]. destruct (u <? n).
+  - cbn. intros H. inversion H; subst. repeat split; reflexivity.
+  - destruct (Decomp.zlen data =? 0) eqn:Ez; [|discriminate].
+    assert (data = []) by (apply Decomp.zlen_le0_nil; lia). subst data.
+    cbn. intros H. inversion H; subst. rewrite Z.add_0_r. repeat split; reflexivity.
+Qed.
+
+Lemma copy_inv_step L0 mb st size rd st' out :
+  copy_inv L0 st size -> 0 < size ->
+  Decomp.decompress Decomp.toy_dstep st (Z.min size mb) rd = Ok (st', out) ->
+  copy_inv L0 st' (size - Decomp.zlen out).
+Proof.
+  intros (Hb & Hst & (u & n & Hu & Hn & Hun) & Hbs & Hsz) Hpos Hd.
+  destruct (Decomp.decompress_book_inv _ Decomp.toy_dstep L0 st st' _ _ out Hb Hd) as (Hb' & _).
+  destruct Hb as (Hp & Hu0 & Hl).
+  destruct (Decomp.decompress_spec _ Decomp.toy_dstep st st' _ rd out Hp Hu0 Hd)
+    as (data & tmp & Hch & Hfp & Hcons & Hdl & Hus & His & Hbsz & Hun' & Hpos' & Hflow & _).
+  assert (Hchain : Decomp.stages st' = [copy_st] /\ Decomp.unpacked st' = [u + Decomp.zlen data]
+                   /\ tmp = data).
+  { destruct Hch as [(Hs & Hup & -> & ->)|[ml' Hcr]].
+    - rewrite Hs, Hup, Hst, Hu. cbn. rewrite Z.add_0_r. repeat split; reflexivity.
+    - rewrite Hst, Hu, Hn in Hcr. apply copy_chain_run in Hcr. exact Hcr. }
+  destruct Hchain as (Hst' & Hu' & ->).
+  pose proof (Decomp.zlen_nonneg data) as Hd0.
+  pose proof (Decomp.zlen_nonneg (Decomp.fp_rest st')) as Hf0.
+  assert (Hav : avail st' = avail st - Decomp.zlen data).
+  { unfold avail. rewrite Hfp, Decomp.zlen_app, Hcons, His. lia. }
+  assert (Hlen : (Decomp.zlen (Decomp.buf st) - Decomp.pos st) + Decomp.zlen data
+                 = Decomp.zlen out + (Decomp.zlen (Decomp.buf st') - Decomp.pos st')).
+  { assert (Hf := f_equal Decomp.zlen Hflow). rewrite !Decomp.zlen_app in Hf.
+    rewrite !Decomp.zlen_py_from in Hf by lia. lia. }
+  split; [exact Hb'|]. split; [exact Hst'|].
+  split; [exists (u + Decomp.zlen data), n; rewrite Hus; repeat split; [exact Hu'|exact Hn|lia]|].
+  split; [lia|]. lia.
+Qed.
+
+Lemma copy_inv_progress L0 mb st size rd st' :
+  0 < mb -> copy_inv L0 st size -> 0 < size -> okrd Decomp.toy_state st rd ->
+  Decomp.decompress Decomp.toy_dstep st (Z.min size mb) rd = Ok (st', []) -> False.
+Proof.
+  intros Hmb (Hb & Hst & (u & n & Hu & Hn & Hun) & Hbs & Hsz) Hpos Hrd Hd.
+  destruct Hb as (Hp & Hu0 & Hl).
+  assert (Hml : 0 < Z.min size mb) by lia.
+  destruct (decompress_empty _ Decomp.toy_dstep st st' (Z.min size mb) rd Hp Hu0 Hml Hd)
+    as (Hcur & st1 & data & st2 & Hread & Hrun).
+  pose proof (Decomp.read_data_spec _ st st1 rd data Hread) as (R1 & R2 & R3 & _).
+  apply Decomp.run_chain_spec in Hrun. destruct Hrun as (Hcr & _).
+  rewrite R1, R2, R3, Hst, Hu, Hn in Hcr. apply copy_chain_run in Hcr.
+  destruct Hcr as (_ & _ & Hdata). subst data.
+  (* nothing was read: the stream is exhausted *)
+  assert (Hav : avail st = 0).
+  { unfold avail. unfold Decomp.read_data in Hread. rewrite Hu0 in Hread.
+    change (Decomp.zlen []) with 0 in Hread. rewrite !Z.sub_0_r in Hread.
+    destruct (Z.min (Decomp.input_size st - Decomp.consumed st) (Decomp.block_size st) >? 0) eqn:Er.
+    - unfold Decomp.fp_read in Hread. injection Hread as _ Hfirst.
+      destruct (Decomp.fp_rest st) as [|b r] eqn:Hfr; [cbn; lia|].
+      destruct Hrd as [Hrd|Hrd]; [|rewrite Hfr in Hrd; discriminate].
+      exfalso.
+      destruct (Nat.min (Z.to_nat (Z.min (Decomp.input_size st - Decomp.consumed st) (Decomp.block_size st))) rd)
+        as [|m] eqn:Em; [lia|]. discriminate Hfirst.
+    - pose proof (Decomp.zlen_nonneg (Decomp.fp_rest st)). lia. }
+  lia.
+Qed.
+
+(* the contract instantiated: Copy terminates within (size + unread bytes + 1) iterations *)
+Theorem copy_worker_terminates L0 mb st size sched fuel :
+  0 < mb -> copy_inv L0 st size -> Forall (fun k => (0 < k)%nat) sched ->
+  Z.max size 0 + Decomp.zlen (Decomp.fp_rest st) + 1 <= Z.of_nat fuel ->
+  Decomp.worker_decompress Decomp.toy_dstep fuel st size mb sched <> Err EFuel.
+Proof.
+  intros Hmb HI Hs Hf.
+  apply (worker_terminates Decomp.toy_state Decomp.toy_dstep (copy_inv L0) (fun _ => 0%nat) 0 mb L0 Hmb).
+  - intros s z (Hb & _). exact Hb.
+  - intros s z rd s' out Hi Hz _ Hd _. exact (copy_inv_step L0 mb s z rd s' out Hi Hz Hd).
+  - intros s. lia.
+  - intros s z rd s' Hi Hz Hrd Hd _. exfalso. exact (copy_inv_progress L0 mb s z rd s' Hmb Hi Hz Hrd Hd).
+  - exact HI.
+  - exact Hs.
+  - change (Z.of_nat 0) with 0. lia.
+Qed.
+
+(* a concrete non-trivial state satisfying the invariant: 7 packed bytes, declared size 7,
+   5 of them wanted, block size 4, short reads allowed *)
+Example copy_inv_example :
+  copy_inv 7 (Decomp.toy_init [copy_st] [7] 7 4 [1; 2; 3; 4; 5; 6; 7]) 5.
+Proof.
+  unfold copy_inv, Decomp.toy_init. split; [apply Decomp.init_book_inv|].
+  split; [reflexivity|]. split; [exists 0, 7; cbn; repeat split; lia|].
+  cbn. lia.
+Qed.
+
+Example copy_worker_example :
+  Decomp.toy_worker 13 [copy_st] [7] 7 4 [1; 2; 3; 4; 5; 6; 7] 5 3 [1%nat; 2%nat] = Ok [1; 2; 3; 4; 5].
+Proof. vm_compute. reflexivity. Qed.
+
+Print Assumptions rd_many_count_le.
+Print Assumptions rd_many_overcount_fails.
+Print Assumptions rd_rep_fuel_irrelevant.
+Print Assumptions parse_packinfo_bound.
+Print Assumptions parse_packinfo_fuel.
+Print Assumptions parse_folder_fuel.
+Print Assumptions numfiles_alloc_witness.
+Print Assumptions numstreams_alloc_witness.
+Print Assumptions substreams_alloc_witness.
+Print Assumptions alloc_by_declared_count_refuted.
+Print Assumptions packpositions_superlinear.
+Print Assumptions names_steps_eof.
+Print Assumptions packed_indices_steps_worst.
+Print Assumptions worker_terminates.
+Print Assumptions header_loop_is_worker.
+Print Assumptions header_loop_spins.
+Print Assumptions header_loop_terminates.
+Print Assumptions toy_header_loop_spins.
+Print Assumptions copy_worker_terminates.
